@@ -93,6 +93,15 @@ def disk_snapshot(root, skip_generation=True):
                 mode = os.stat(q).st_mode & 0o7777
             except OSError:
                 continue
+            if f.startswith("sqlite3.db-"):
+                continue                      # journal / wal files of the SQLite store
+            if f == "sqlite3.db":
+                # logical content (independent reader), without row ids: a rolled-back insert may consume an id, which no caller can observe
+                from . import storefmt as _SF
+                d = _SF.read_token_db(dp)
+                canon = repr((sorted((d["token"] or {}).items()), sorted(sorted(a.items()) for a in d["objects"].values()), sorted(d["errors"])))
+                out[os.path.relpath(q, root)] = (mode, hashlib.sha1(canon.encode()).hexdigest() + ":objects=%d" % len(d["objects"]))
+                continue
             if skip_generation and f.endswith(".object"):
                 data = data[8:]
             if skip_generation and f == "generation":
